@@ -96,6 +96,38 @@ def run(ctx):
             elif st == 'ok' and (o != out or tin != used): why = 'lzma_alone_decoder (mode %d): output/consumed differ from the specification (out %d vs %d, in %d vs %d)' % (mode_, len(o), len(out), tin, used)
             elif st != 'ok' and not (out.startswith(o) or o.startswith(out)): why = 'lzma_alone_decoder (mode %d): output before the error is not a prefix of the specified decoding' % mode_
             if why: mism.append(dict(kind='model-generated .lzma', desc=lab, why=why, file=b.hex(), spec=[st, used, len(out)], impl=list(im[:4]), impl_sliced=[]))
+    # ---- raw LZMA2 streams framed by the MODEL encoder from arbitrary chunk sequences: every reset level where it is and is
+    # not allowed, stored chunks, properties bytes valid and not, symbols valid and not; library (raw decoder) vs specification
+    l2g, l2m = [], []
+    for _ in range(80 if ctx.quick() else 2500):
+        toks = []
+        for ci in range(rng.randrange(1, 5)):
+            if rng.random() < 0.3:
+                toks.append('U%d:%s' % (rng.choice([1, 1, 0]) if ci == 0 else rng.choice([0, 0, 1]), bytes(rng.getrandbits(8) for _ in range(rng.randrange(1, 40))).hex()))
+            else:
+                m = rng.choice([3, 3, 2, 1, 0]) if ci == 0 else rng.choice([0, 0, 1, 2, 3])
+                pbv = rng.choice([93, 0, 44, 224, 225, 255, (rng.randrange(5) * 5 + rng.randrange(5)) * 9 + rng.randrange(9)])
+                syms = xzgen.gen_symbols(rng, rng.choice([1, 3, 10, 30]), p_bad=rng.choice([0, 0, 1.0]))
+                toks.append('K%d:%d:%s' % (m, pbv, '/'.join(syms)))
+        l2g.append('lzma2enc ' + ' '.join(toks)); l2m.append(' '.join(toks)[:300])
+    l2o, l2f = run_lines(orc, l2g)
+    if l2f: raise BuildError('oracle failed %r' % (l2f[0],))
+    l2blobs = [bytes.fromhex(h) for h in l2o]
+    l2blobs += [b[:rng.randrange(len(b))] for b in l2blobs[:len(l2blobs) // 4]]; l2m += ['truncated'] * (len(l2blobs) - len(l2m))
+    l2spec = oracle_dec(orc, 'lzma2dec 4096', l2blobs)
+    for mode_, sd in ((0, 0), (1, 0), (3, 21)):
+        l2impl, lf = impl_dec(drv, 5, 4096, mode_, (lambda i: i * 3 + sd) if mode_ == 3 else 0, l2blobs)
+        for f in lf: ctx.violation('raw LZMA2 decoder crashed / sanitizer report on a model-generated stream', {'line': (f[0] or '')[:100000], 'stderr': f[1], 'rc': f[2], 'kind': 'sanitizer'})
+        for b, lab, sp, im in zip(l2blobs, l2m, l2spec, l2impl):
+            if im is None: continue
+            n_eval += 1
+            st, used, out = sp; ret, tin, tout, calls, o = im
+            kinds['lzma2:' + st] = kinds.get('lzma2:' + st, 0) + 1
+            why = None
+            if not same_verdict(st, ret): why = 'raw LZMA2 decoder (mode %d) returned %d, the specification says %s' % (mode_, ret, st)
+            elif st == 'ok' and (o != out or tin != used): why = 'raw LZMA2 decoder (mode %d): output/consumed differ from the specification (out %d vs %d, in %d vs %d)' % (mode_, len(o), len(out), tin, used)
+            elif st != 'ok' and not (out.startswith(o) or o.startswith(out)): why = 'raw LZMA2 decoder (mode %d): output before the error is not a prefix of the specified decoding' % mode_
+            if why: mism.append(dict(kind='model-generated LZMA2', desc=lab, why=why, file=b.hex(), spec=[st, used, len(out)], impl=list(im[:4]), impl_sliced=[]))
     ctx.cov['evaluations'] = n_eval
     ctx.cov['distinct_nontrivial'] = len(distinct)
     ctx.cov['rule'] = ('valid files: 1-3 Streams with padding, 0-3 Blocks, 1-4 filters (delta, 7 BCJ, LZMA2 with all lc/lp/pb), sizes present/absent, header padding, all 16 check ids, '
